@@ -30,6 +30,7 @@ class BitStringPayloadDecoder(AbstractScalarPayloadDecoder):
 class SequenceOrSetPayloadDecoder(object):
     def __call__(self, pyObject, asn1Spec, decodeFun=None, **options):
         asn1Value = asn1Spec.clone()
+        asn1Value.clear()
 
         componentsTypes = asn1Spec.componentType
 
